@@ -113,6 +113,8 @@ var sinks = []string{
 	"top", "in if", "in else", "for loop var", "for over [E] with key", "array emitted whole", "array with neighbours", "fn body", "fn return",
 	"block helper", "block helper in if", "contentFor/Of", "contentOf data", "partial data", "partial data + layout", "nested partial data",
 	"if in for in fn", "let at top then in block", "return in if", "return in for",
+	// blocks whose whole body is exactly ONE output tag (no text next to it)
+	"bare in if", "bare in for", "bare fn body", "bare block helper", "bare contentFor/Of", "bare contentOf default block", "bare partial",
 }
 
 // sinks for context collections that are emitted without an expression route
@@ -309,6 +311,28 @@ func build(c Case) (src string, partials map[string]string, parts []match.Part, 
 	case "return in for":
 		sb.WriteString("<%= for (x) in [" + e + "] { return x } %>|<%= for (x) in [1, 2] { %>[<% return " + e + " %>]<% } %>")
 		parts = append(append(payloadParts(), match.L("|[")), append(payloadParts(), append([]match.Part{match.L("[")}, payloadParts()...)...)...)
+	case "bare in if":
+		sb.WriteString("[<%= if (true) { %><%= " + e + " %><% } %>]")
+		parts = around("[", payloadParts(), "]")
+	case "bare in for":
+		sb.WriteString("[<%= for (x) in [" + e + "] { %><%= x %><% } %>]")
+		parts = around("[", payloadParts(), "]")
+	case "bare fn body":
+		sb.WriteString("<% let show = fn(x) { %><%= x %><% } %>[<%= show(" + e + ") %>]")
+		parts = around("[", payloadParts(), "]")
+	case "bare block helper":
+		sb.WriteString("[<%= blk() { %><%= " + e + " %><% } %>]")
+		parts = around("[", payloadParts(), "]")
+	case "bare contentFor/Of":
+		sb.WriteString("<% contentFor(\"c\") { %><%= " + e + " %><% } %>[<%= contentOf(\"c\") %>]")
+		parts = around("[", payloadParts(), "]")
+	case "bare contentOf default block":
+		sb.WriteString("[<%= contentOf(\"undefined-name\") { %><%= " + e + " %><% } %>]")
+		parts = around("[", payloadParts(), "]")
+	case "bare partial":
+		partials["part"] = "<%= d %>"
+		sb.WriteString("[<%= partial(\"part\", {d: " + e + "}) %>]")
+		parts = around("[", payloadParts(), "]")
 	case "let at top then in block":
 		sb.WriteString("<% let held = " + e + " %><%= blk() { %><%= if (held) { %>[<%= held %>]<% } %><% } %>")
 		if p == "" && pre == "" && suf == "" && c.Tag != "htmler" { // an empty string / empty HTML is falsy, an HTMLer struct is not
@@ -360,7 +384,7 @@ func check(r *vk.Run, c Case) *vk.Fail {
 	return nil
 }
 
-const rule = "payload strings (20 fixed hostile payloads; random payloads over the five specials, entity and tag look-alikes, quotes, multi-byte, combining and invalid bytes) x type tag {plain string, template.HTML, HTMLer, raw()} x base (context variable, literal, struct / pointer / nested / pointer-in-struct field, slice of structs, map[string]string, map[string]interface{}, []string / []interface{} / [2]string element, helpers returning string / interface{} / HTML / HTMLer, method) x up to 4 wraps (\"\"+E, E+\"\", q+E+r, E+raw(..), E+trusted variable, lit+E+raw(..), [E][0], [x,E][1], {k:E}[\"k\"], Go helper, user function, user function with if/return, parentheses, let) x sink (top, if, else, loop variable, loop with key, array emitted whole, array with neighbours, function body, function return, block helper, block helper in if, contentFor+contentOf twice, contentOf data, partial data, partial data with layout, nested partial data, if in for in function, let then block, return inside an emitted if, return inside a loop body) plus whole-collection sinks ([]string, []interface{} emitted whole; for over []string, []interface{}, [2]string, map[string]string, slice of structs). (E) every base x sink with no wrap, every single wrap x sink from a variable, for all fixed payloads and tags; (R) random compositions to depth 4. Oracle: entity-decoding matcher over the whole output: plain payloads only entity-encoded and decoding back to the payload, trusted payloads byte-identical, each exactly once. Non-trivial = payload contains a special and the route is not the bare variable at top level; distinct by (route, tag, payload)."
+const rule = "payload strings (20 fixed hostile payloads; random payloads over the five specials, entity and tag look-alikes, quotes, multi-byte, combining and invalid bytes) x type tag {plain string, template.HTML, HTMLer, raw()} x base (context variable, literal, struct / pointer / nested / pointer-in-struct field, slice of structs, map[string]string, map[string]interface{}, []string / []interface{} / [2]string element, helpers returning string / interface{} / HTML / HTMLer, method) x up to 4 wraps (\"\"+E, E+\"\", q+E+r, E+raw(..), E+trusted variable, lit+E+raw(..), [E][0], [x,E][1], {k:E}[\"k\"], Go helper, user function, user function with if/return, parentheses, let) x sink (top, if, else, loop variable, loop with key, array emitted whole, array with neighbours, function body, function return, block helper, block helper in if, contentFor+contentOf twice, contentOf data, partial data, partial data with layout, nested partial data, if in for in function, let then block, return inside an emitted if, return inside a loop body, and seven 'bare' sinks whose block body is exactly one output tag with no text next to it: if, for, function body, block helper, contentFor/contentOf, contentOf default block, partial) plus whole-collection sinks ([]string, []interface{} emitted whole; for over []string, []interface{}, [2]string, map[string]string, slice of structs). (E) every base x sink with no wrap, every single wrap x sink from a variable, for all fixed payloads and tags; (R) random compositions to depth 4. Oracle: entity-decoding matcher over the whole output: plain payloads only entity-encoded and decoding back to the payload, trusted payloads byte-identical, each exactly once. Non-trivial = payload contains a special and the route is not the bare variable at top level; distinct by (route, tag, payload)."
 
 func setup(t *testing.T) *vk.Run {
 	r := vk.Start(t, "C01", rule,
@@ -433,7 +457,7 @@ func TestProp(t *testing.T) {
 			}
 		}
 	}
-	r.Subspace(fmt.Sprintf("%d payloads x 4 tags x (17 bases + 15 single wraps) x 20 sinks + 7 whole-collection sinks (inapplicable combinations counted under excluded)", len(payloads)), int64(len(cases)), true)
+	r.Subspace(fmt.Sprintf("%d payloads x 4 tags x (17 bases + 15 single wraps) x 27 sinks + 7 whole-collection sinks (inapplicable combinations counted under excluded)", len(payloads)), int64(len(cases)), true)
 	r.Parallel(int64(len(cases)), 0, func(i int64) { r.Check(check(r, cases[i])) })
 
 	r.Rapid("compositions", r.Pick(8000, 100000), func(t *rapid.T) *vk.Fail {
